@@ -5,7 +5,9 @@ traces of the model; direct predicates on results and file bytes; stress under -
 Second use after an I/O error: appenders whose write(2) the OS refuses (they append to the 'full' device 1:7 - what /dev/full
 is - under a private name next to the record file, never to the path /dev/full itself: ENOSPC) run in the
 same server processes, at every position of the other appenders' interleavings; the calls on the healthy file must
-behave as if the failed calls had never happened (theorem C14_failed_elsewhere_leaves_nothing)."""
+behave as if the failed calls had never happened (theorem C14_failed_elsewhere_leaves_nothing).
+Big record files: the same forced interleavings and predicates on sparse files of 2 GiB .. 1 TiB (big_files below; theorems
+C14_offset_exact, C14_prefix_shift)."""
 import errno, itertools, os, subprocess, sys
 sys.path.insert(0, os.path.join(os.path.dirname(os.path.abspath(__file__)), "..", "lib"))
 import vf
@@ -59,6 +61,69 @@ def parse(out):
     return ev, rs, fb
 
 
+def parse_big(out, n):
+    """op 2: events, results, then the sparse file losslessly: size and every maximal run of non-zero bytes"""
+    f = out.split()
+    if f[0] != "0":
+        return None
+    i1 = f.index("-1")
+    i2 = i1 + 1 + 2 * (n + 1)
+    ev = [(int(f[i]), int(f[i + 1])) for i in range(1, i1, 2)]
+    rs = [(int(f[i]), int(f[i + 1])) for i in range(i1 + 1, i2, 2)]
+    rest = [int(x) for x in f[i2 + 1:]]
+    size, runs, k = rest[0], [], 1
+    while k < len(rest):
+        off, ln = rest[k], rest[k + 1]
+        runs.append((off, rest[k + 2:k + 2 + ln]))
+        k += 2 + ln
+    return ev, rs, size, runs
+
+
+def runs_of(records, sz):
+    """the non-zero runs of a file that holds exactly these records (slot -> bytes, all non-zero), zero elsewhere"""
+    runs = []
+    for slot in sorted(records):
+        if runs and runs[-1][0] + len(runs[-1][1]) == slot * sz:
+            runs[-1] = (runs[-1][0], runs[-1][1] + list(records[slot]))
+        else:
+            runs.append((slot * sz, list(records[slot])))
+    return runs
+
+
+def sparse_read(runs, off, ln):
+    out = [0] * max(ln, 0)
+    for o, b in runs:
+        lo, hi = max(o, off), min(o + len(b), off + ln)
+        for x in range(lo, hi):
+            out[x - off] = b[x - o]
+    return out
+
+
+def clip(runs, lim):
+    return [(o, b[:lim - o]) for o, b in runs if o < lim]
+
+
+def find_stretch(runs, v, ln):
+    """offset of the first stretch of exactly ln bytes of value v"""
+    for o, b in runs:
+        i = 0
+        while i < len(b):
+            if b[i] == v:
+                j = i
+                while j < len(b) and b[j] == v:
+                    j += 1
+                if j - i == ln:
+                    return o + i
+                i = j
+            else:
+                i += 1
+    return None
+
+
+def short(runs):
+    return [(o, len(b), sorted(set(b))) for o, b in runs][:12]
+
+
 def model_schedule(ev, n):
     """map observed events to model steps (see Model/C14.v)"""
     sch, queued, last = [], set(), {}
@@ -78,6 +143,128 @@ def model_schedule(ev, n):
         elif code == 5:
             sch += [t, t, t] if prev == 2 else [t]     # a write error after the seek: fail, unflock, drop the table entry
     return sch + [n] * 7          # the late append
+
+
+def big_files(c, rng, thorough, impl, model):
+    """Record files of 2 GiB, 4 GiB, 8 GiB, 1 TiB (sparse: only the first and the last record are stored). AppendRecord sees
+    nothing of a file but its length, and computes slot and offset from it: a width too narrow anywhere in that computation
+    shows at these lengths and nowhere below. The same forced interleavings, the same predicates; the file is observed
+    losslessly as (size, non-zero runs) through SEEK_DATA/SEEK_HOLE."""
+    import concurrent.futures
+    cases = []     # (procs, schedule, sz, n0)
+    bounds = (2 ** 31, 2 ** 32, 2 ** 33, 2 ** 40)
+    for B in (2 ** 31, 2 ** 32):                                # every interleaving of two appenders on a file of exactly 2 GiB / 4 GiB
+        for procs in ([0, 0], [0, 1]):
+            for s in interleavings([4, 4]):
+                cases.append((procs, s, 128, B // 128))
+    n_enum = len(cases)
+    three = [[0, 0], [0, 1], [0, 0, 0], [0, 0, 1], [0, 1, 0], [0, 1, 1], [0, 1, 2], [0], [100, 0], [0, 101]]
+    for rep in range(12 if thorough else 1):
+        for sz in (128, 8, 1, 100, 512, 256):
+            for B in bounds:
+                for d in (-1, 0, 1, 3):                         # the append that crosses the boundary, the first after it, later ones
+                    procs = list(rng.choice(three))
+                    s = []
+                    for t, p in enumerate(procs):
+                        s += [t] * (3 if p >= 100 else 4)
+                    rng.shuffle(s)
+                    n0 = B // sz + d
+                    if n0 * sz < B and d >= 0:
+                        n0 += 1
+                    cases.append((procs, s, sz, n0))
+    lines = ["2|%d %d|%s|%s" % (sz, n0, " ".join(map(str, p)), " ".join(map(str, s))) for p, s, sz, n0 in cases]
+    chunks = [lines[i::8] for i in range(8)]
+    with concurrent.futures.ThreadPoolExecutor(8) as ex:
+        outs = list(ex.map(lambda ch: vf.run_impl(impl, "C14", ch, deadline_ms=60000) if ch else [], chunks))
+    io = [None] * len(lines)
+    for k, ch in enumerate(outs):
+        for j, o in enumerate(ch):
+            io[k + 8 * j] = o
+    c.count(len(lines), "forced interleavings on sparse record files of 2 GiB .. 1 TiB")
+    unsupported = 0
+    mlines, mwant, mcase = [], [], []
+    alines, aimpl = [], []
+    for (procs, s, sz, n0), line, o in zip(cases, lines, io):
+        n = len(procs)
+        L = sz * n0
+        rep = {"cases": [line], "got": o[:3000], "note": "op 2: '2|record size, records the sparse file starts with|process of each appender (100+p: its payload cannot be serialised)|schedule'; "
+               "output: events -1 (code, index) per appender and for the late append -1 file size, then (offset, length, bytes) of every non-zero run"}
+        if o.split()[0] == "3":
+            unsupported += 1
+            continue
+        p = parse_big(o, n)
+        if p is None:
+            c.violation("bigfile-append-hang", "appenders on a file of %d bytes did not all return (status %s) for procs=%s schedule=%s" % (L, o.split()[0], procs, s), rep)
+            continue
+        ev, rs, size, runs = p
+        c.nontrivial(("bigtrace", tuple(procs), sz, n0, tuple(ev)))
+        where = "record size %d, file of %d records = %d bytes (2^%.3f), procs=%s" % (sz, n0, L, __import__("math").log2(L), procs)
+        succ = [(t, idx) for t, (code, idx) in enumerate(rs) if code == 1]
+        if any(code == 0 for code, _ in rs):
+            c.violation("bigfile-append-unfinished", "a call neither failed nor returned: %s (%s)" % (rs, where), rep)
+        for t, (code, idx) in enumerate(rs[:n]):
+            if procs[t] < 100 and code == 2 and idx != 1:
+                # ErrPttLock (1) is the documented fail-fast refusal; any other error of a healthy appender on a healthy file is reported by the
+                # late append below if it persists - here only counted
+                c.cov["bigfile_calls_failing_otherwise_than_ErrPttLock"] = c.cov.get("bigfile_calls_failing_otherwise_than_ErrPttLock", 0) + 1
+        idxs = [i for _, i in succ]
+        if len(set(idxs)) != len(idxs):
+            c.violation("bigfile-append-double-index", "two successful appends returned the same index: %s (%s, events=%s)" % (rs, where, ev), rep)
+        for t, idx in succ:
+            recb = sparse_read(runs, (idx - 1) * sz, sz)
+            want = [t + 1] * sz
+            if idx <= n0 or recb != want:
+                c.violation("bigfile-append-torn-or-lost", "thread %d returned index %d but the record there (offset %d) is %s; non-zero runs of the file (offset, length, values): %s (%s, events=%s)"
+                            % (t, idx, (idx - 1) * sz, recb[:16], short(runs), where, ev), rep)
+        if size != sz * (n0 + len(succ)):
+            c.violation("bigfile-append-length", "file length %d != %d + %d*%d successes (results %s; %s, events %s)" % (size, L, sz, len(succ), rs, where, ev), rep)
+        if rs[n][0] != 1:
+            c.violation("bigfile-append-late-fails", "an append issued after all others returned failed: %s; %s, events=%s" % (rs[n], where, ev), rep)
+        init_runs = runs_of({0: [200] * sz, n0 - 1: [200] * sz}, sz)
+        if clip(runs, L) != init_runs:
+            c.violation("bigfile-append-clobber", "earlier records were modified: the file below its initial length %d holds (offset, length, values) %s, it held %s (%s, results %s)"
+                        % (L, short(clip(runs, L)), short(init_runs), where, rs), rep)
+        recs = {0: [200] * sz, n0 - 1: [200] * sz}
+        for t, idx in succ:
+            recs[idx - 1] = [t + 1] * sz
+        if runs != runs_of(recs, sz):
+            c.violation("bigfile-append-file-differs", "the file is not the initial file plus the records of the successful calls at their indices: non-zero runs %s, expected %s (%s, results %s)"
+                        % (short(runs), short(runs_of(recs, sz)), where, rs), rep)
+        # ---- the observed trace, seen through the window that starts at the last initial record, must be a trace of the model
+        shift = n0 - 1
+        sch = model_schedule(ev, n)
+        mlines.append("1|%d %d|%s|%s|%s" % (sz, sz // 2, " ".join(map(str, procs + [0])), " ".join(["200"] * sz), " ".join(map(str, sch))))
+        win = sparse_read(runs, shift * sz, min(max(size - shift * sz, 0), 64 * sz))
+        mwant.append("0 " + " ".join("%d %d" % (code, idx - shift if code == 1 else 0) for code, idx in rs) + " -1 " + " ".join(map(str, win)))
+        mcase.append((line, o))
+        # ---- the offset computation: index returned and offset written by the j-th writer vs Model/C14 append_ret / append_off
+        order = [t for t, code in ev if code == 3] + ([n] if rs[n][0] == 1 else [])
+        for j, t in enumerate(order):
+            if rs[t][0] == 1:
+                alines.append("2|%d %d" % (L + j * sz, sz))
+                aimpl.append("0 %d %s" % (rs[t][1], find_stretch(clip_from(runs, L - sz), t + 1, sz)))
+    if model and mlines:
+        mo = vf.run_model(model, mlines)
+        bad = [{"case": cs[0], "impl": cs[1][:2000], "model_case": ml, "model": m, "expected_from_impl": w}
+               for ml, m, w, cs in zip(mlines, mo, mwant, mcase) if " ".join(m.split()) != " ".join(w.split())]
+        c.cov["bigfile_traces_validated_against_impl"] = len(mlines)
+        if bad:
+            c.broken.append({"kind": "correspondence", "where": "observed AppendRecord traces on sparse big files vs Model/C14 replay (window from the last initial record, indices shifted)",
+                             "theorem": "trace validation on big files", "mismatches": len(bad), "examples": bad[:3], "log": ""})
+        if alines:
+            ao = vf.run_model(model, alines)
+            vf.correspond(c, "AppendRecord index/offset on files of 2 GiB .. 1 TiB vs Model/C14 append_ret/append_off (theorem C14_offset_exact)", alines, aimpl, [" ".join(x.split()) for x in ao])
+            c.cov["bigfile_offset_computations_compared"] = len(alines)
+    c.cov["exhaustive_parts"].append(
+        "all 70 interleavings of 2 appenders, in one process and across two, on a sparse record file of exactly 2 GiB and of exactly 4 GiB (128-byte records; %d executions)" % n_enum
+        if unsupported == 0 else "sparse big files: %d of %d executions not possible on this file system (no holes / file too long)" % (unsupported, len(lines)))
+    if len(lines) > 3:
+        c.sample({"big_file": True, "record_size": cases[3][2], "records_before": cases[3][3], "procs": cases[3][0], "schedule": cases[3][1], "observed": io[3][:600]})
+    return "%d executions, %d not possible here" % (len(lines), unsupported)
+
+
+def clip_from(runs, lo):
+    return [(max(o, lo), b[max(lo - o, 0):]) for o, b in runs if o + len(b) > lo]
 
 
 def main():
@@ -223,6 +410,8 @@ def main():
     if n_away:
         c.sample({"procs": cases[n_away0 + 2][0], "schedule": cases[n_away0 + 2][1], "records_before": cases[n_away0 + 2][2], "GOMAXPROCS": cases[n_away0 + 2][3], "observed": io[n_away0 + 2]})
 
+    big_note = big_files(c, rng, thorough, impl, model)
+
     race_note = ""
     if True:
         # 16 goroutines x 2 processes hammering one file under the race detector, every 8th call preceded by an append whose
@@ -235,11 +424,13 @@ def main():
             c.violation("append-race-stress", "stress under -race failed: %s" % out[-600:], {"cmd": "cd go/impl && go run -race ./cmd/c14stress", "got": out[-2000:]})
     c.finish(rule="every interleaving of 2 appenders (4 segments each) in-process and cross-process; PRNG(seed)-sampled interleavings of 3 and 4 appenders over 1..3 processes; "
                   "a call whose write the OS refuses (/dev/full) at every position of one appender's call (enumerated) and at PRNG(seed)-sampled positions of 2 appenders' interleavings, several such calls; "
+                  "the same forced interleavings on sparse record files: every interleaving of 2 appenders (in-process, cross-process) at exactly 2 GiB and 4 GiB; PRNG(seed)-sampled interleavings of 1..3 appenders for 6 record sizes x {2^31, 2^32, 2^33, 2^40} x {the append that crosses the boundary, the first one after it, later ones}; "
                   "a case is non-trivial/distinct by its (process assignment, observed event trace)",
-             extra={"race_stress": race_note},
+             extra={"race_stress": race_note, "big_files": big_note},
              assumptions=["atomicity/exclusivity of flock(2), atomicity of one write(2) under it, lockFDMap accesses atomic under its mutex (race detector in the thorough tier), Go memory model",
                           "a thread is known to hold its process' table entry from the flock.tabled schedule point; which queued thread obtains a freed flock is observed, not predicted",
                           "second use after an I/O error: the refused write is provoked with the 'full' device 1:7 under a private name (own mknod node, else a symlink to /dev/full; ENOSPC on the first byte; the call names that path, so it fails on ANOTHER file than the one observed) and, on the record file itself, with a payload encoding/binary refuses; a write that the OS cuts short in the middle of a record (EFBIG/EDQUOT after some bytes) on the record file itself is not provoked. In the model such a call is one step that changes nothing (cfg.away): that AppendRecord keeps no state between calls besides lockFDMap and the files is what the forced executions test, it is not derived from the Go source",
+                          "big record files: C14_offset_exact and C14_prefix_shift are theorems about the model's arithmetic (64-bit quotient and product, wrap after every operation) and about the step relation; that the compiled AppendRecord computes slot, offset and index in those widths is validated, not derived from the source: sparse files (first and last record stored, a hole between) of lengths just below, at and above 2^31, 2^32, 2^33 and 2^40 bytes, 6 record sizes, on this 64-bit platform (int is 64 bits; a 32-bit build has a 32-bit SortIdxInStore and is outside the theorem's widths); lengths the scratch file system cannot hold (above 16 TiB on ext4) are covered by the theorem only. The file is read back through lseek(SEEK_DATA/SEEK_HOLE): bytes the file system reports as a hole are taken to be zero. A trace observed on a big file is replayed through the model on the window that starts at the last initial record, with the indices shifted (C14_prefix_shift)",
                           "per-P caches (sync.Pool and the like) are made deterministic by running the worker processes of these cases with GOMAXPROCS=1 (one half of the enumerated cases also with the default); with several Ps whether a later call meets what a failed call left behind depends on the Go scheduler"])
 
 
